@@ -254,4 +254,12 @@ def crafted() -> list[dict]:
               F("Tagged", "string", versions="3+", taggedVersions="11+", tag=0, ignorable=True),
               F("Items", "[]Zc2Item", versions="2-11", fields=[F("Key", "string"), F("Value", "bytes", versions="9+", nullableVersions="10+")]),
           ]}
-    return [d1, d2, d3]
+    # the two APIs the header rule singles out (ControlledShutdown = 7, ApiVersions = 18), each with
+    # non-flexible and flexible versions
+    out = [d1, d2, d3]
+    for key, stem in ((7, "Zc3Shutdown"), (18, "Zc4Versions")):
+        for kind in ("request", "response"):
+            out.append({"type": kind, "name": stem + kind.capitalize(), "apiKey": key, "validVersions": "0-4",
+                        "flexibleVersions": "3+", "fields": [F("BrokerId", "int32", entityType="brokerId"),
+                                                            F("Epoch", "int64", versions="2+", default="-1")]})
+    return out
